@@ -73,14 +73,14 @@ func c03Shapes() []docgen.Doc {
 	}
 	e := func(v string, sum ...string) docgen.GEntry { return docgen.GEntry{Value: v, Summary: sum} }
 	extra := []docgen.Doc{
-		{Records: []docgen.GRecord{mk("2020-01-01", nil, e("1h", "a"), e("18:00 - ?", "open #t"), e("-10m", "pause #t"), e("2h"))}},
+		{Records: []docgen.GRecord{mk("2020-01-01", nil, e("1h", "a"), e("18:00 - ?", "open #t"), e("-10m", "pause #t (planned: -10m)"), e("2h"))}},
 		{Records: []docgen.GRecord{mk("1999-12-31", []string{"old"}, e("23:00-???", "late flight FRA-?", "continued ?? here")), mk("2020-01-01", nil, e("6:00am - ?"))}},
 		{Records: []docgen.GRecord{mk("1999/12/31", nil, e("1h")), mk("2020/01/01", []string{"today"}, e("19:00 - ?", "", "summary only below"), e("-0m")), mk("2020/06/01", nil)}},
 		{Records: []docgen.GRecord{mk("2020-01-01", nil), mk("2020-01-01", nil, e("18:30 - ?"))}},
 		{Records: []docgen.GRecord{mk("2020-01-01", nil, e("17:00 - ?", "work (planned: 17:00 - ?)"), e("0m", "lunch-break at café-x"))}},
 		{Records: []docgen.GRecord{mk("2020-01-01", nil, e("1h", "trailing blanks  "), e("16:00 - ?  "))}},
 		{Records: []docgen.GRecord{mk("1999-12-31", nil, e("2h")), mk("2020-01-01", []string{"t"}, e("16:00-?", "summary with trailing tab\t", "and continuation  "), e("-3m", "p "))}},
-		{Records: []docgen.GRecord{mk("2020-01-01", nil, e("17:00 - ????????", "long placeholder"), e("-0h05m", "padded pause")), mk("2020-02-02", nil, e("1h", "tail"))}},
+		{Records: []docgen.GRecord{mk("2020-01-01", nil, e("17:00 - ????????", "long placeholder"), e("-0h05m", "padded pause")), mk("2020-02-02", nil, e("1h", "tail Caf\xe9 latin-1 \xff"))}},
 		{Records: []docgen.GRecord{mk("2020-01-01", nil, e("-30m", "Lunch"), e("12:30 - ?", "work", "chapter one", "chapter two"))}},
 		{Records: []docgen.GRecord{mk("2025-01-01", nil, e("1h")), mk("2020-01-01", nil, e("<22:00 - ??", "x"), e("-5m"), e("0m")), mk("1999-12-31", nil, e("20:00 - ?"))}},
 	}
